@@ -125,4 +125,22 @@ PROPS = {
         'level_text': 'C13 is proved on an executable model and tied to mani by byte-exact correspondence: replay_roundtrip (every manifest the repaired Edit API can write reads back as written, for every checksum; api_enforces_hypothesis shows the hypothesis is exactly what Edit::add/rm/info and to_edit guarantee), torn_manifest (any byte cut reads as a corruption error or a prefix of whole edits), crash_recover/mani_crash_recover (every history of edits and rollovers, every crash point among append/sync/link/unlink/write/sync/rename, both persistence models: reopen = replay of a prefix containing every returned edit), maniAlgebra_lawful (to_edit/apply_edit on sorted sets), chain_crash_free and chain_after_crash_and_reopen (fragments chain after every history and, with open finishing an interrupted rollover, after every crash + reopen). The check runs the real Manifest on seeded histories and compares MANIFEST bytes, every fragment, in-memory and reopened state, verify verdict, every truncation length (all lengths for small files), every crash point under both models, and the strace of real runs against the model op list.',
         'level_note': 'Trusted: Lean kernel; axioms propext, Classical.choice, Quot.sound; CRC-32C model vs crate agreement is observational; NoCollision hypothesis of torn_manifest cannot be discharged by proof; crash images are harness-built from an op order that is strace-checked on a sample. Defects D-12, D-24 (Edit accepted what the reader cannot read back) and D-13 (crash between link and rename broke the fragment chain) are repaired by fixes/d12-d24-mani-edit-validation.diff and fixes/d13-mani-finish-interrupted-rollover.diff; the as-is behaviour stays as theorems.',
     },
+    'C10': {
+        'trusted': [
+            'bloom filter block (SipHash-2-4, sbbf.rs) is a parameter of the table model: its bytes are taken from the real file; the harness checks them against sst::sbbf::Filter over the accepted keys and checks load() of every inserted entry (no false negative)',
+            'SHA3-256 is a parameter of the setsum in the final block / metadata (items enter as their eight LE words; the harness also recomputes the setsum through sst::Setsum::{put,del} and through the published definition)',
+            'CRC32C is computed by the model (bitwise Castagnoli) and compared through the index and final block bytes',
+        ],
+        'assumptions': [
+            'restart intervals (bytes, pairs) >= 1: interval 0 is outside the property quantifier and makes BlockCursor::next loop forever (DESIGN 6.1); never generated',
+            'the empty entry sequence is inside the property (BlockBuilder::seal accepts it): as found, the cursor of the empty block answers corruption errors and SstBuilder::seal fails (D-7); the model describes the repaired code (fixes/d7-empty-block-cursor.diff)',
+            'SstMultiBuilder is modelled with the sort order enforced across a roll-over (fixes/c10-multibuilder-sort-order.diff); as found it writes an entry that is out of order with respect to the previous file (theorem about the code as found: MB.putAsFound)',
+            'table-full is exercised on a real BlockBuilder (thorough tier, ~960 MiB in memory) and through check_table_size at the limit; an SstBuilder is not driven to 960 MiB on disk',
+        ],
+        'partial': [
+            'sst_builder_refines_partial: SstBuilder start to seal is a theorem for the data blocks and the index block as written (decode to a cut of the sorted accepted entries + separating index entries; cursor programs and load = reference); re-reading the blocks from the file image through the index entries (start, limit, crc32c) -- Sst::load_block -- the final block bytes and the packed SstMetadata are held by byte-for-byte correspondence, not by a theorem; bloom filter bytes and the setsum digest are parameters',
+        ],
+        'level_text': 'Lean theorems (25, no sorry; axioms propext, Classical.choice, Quot.sound): entry messages and the entry area of a block round-trip for every restart policy; prefix compression is inverted; the builder accepts exactly in-limit, strictly ordered input, a refused attempt appends nothing, accepted entries are sorted; restart offsets are the prefix-sum offsets of the entries the restart indices name; Block::new on sealed bytes + forward decode + offset->index translation returns exactly the entries and restart indices (sealed_bytes_decode), hence a block end to end at the byte level: every finite cursor program over keys equals the reference cursor, seek(k) = first entry with key >= k (sealed_block_cursor_refines), Block::load = newest version <= ts or tombstone; divide_keys lies in [lhs, rhs), minimal_successor_key is a strict successor, the index keys of ANY cut of a sorted list are separating (DivOk) for every target; SstCursor refines the reference cursor; SstBuilder start to seal: blocks and index as written decode to a cut of the accepted entries with separating dividers, cursor programs and Sst::load equal the reference (sst_builder_refines_partial); metadata: first/last key, smallest/biggest timestamp, filter count and file size are exact. The models are tied to the code by byte-exact comparison of block bytes, of a table\'s data/index/final blocks and packed metadata, and of cursor/load observations on seeded adversarial sequences (many versions of a key, last-byte neighbours, prefix chains, empty key, keys/values at the limits, tombstone runs, restart intervals and block sizes down to one entry per block), plus a vector-reference oracle on the implementation alone; limits, field numbers and wire types are regenerated from the source each run.',
+        'level_note': 'Trusted: Lean kernel; axioms propext, Classical.choice, Quot.sound; bloom filter bytes and SHA3 as parameters (cross-checked by the harness); correspondence is agreement on generated cases only. Not a theorem: Sst::load_block (file offsets + CRC) = the block list, final block / SstMetadata bytes. Restart interval 0 excluded (outside the property). Requires the repairs d7 (empty block cursor) and multi-builder sort order; d23 (Block::new checked_sub) belongs to C09.',
+    },
 }
